@@ -27,7 +27,7 @@ import (
 // Op is one call of the program (one action of PdfWriter.tla).
 type Op struct {
 	Pad int      `json:"pad"` // StreamWrite: extra bytes (only once the stream has started; invisible to the model)
-	Op  string   `json:"op"` // Alloc AllocN Put OpenStream OpenWhileOpen StreamWrite CloseStream WriteCompressed WriteCompressedBad Close CloseWhileOpen
+	Op  string   `json:"op"`  // Alloc AllocN Put OpenStream OpenWhileOpen StreamWrite CloseStream WriteCompressed WriteCompressedBad Close CloseWhileOpen
 	N   int      `json:"n"`
 	G   int      `json:"g"`
 	V   string   `json:"v"`
@@ -37,8 +37,9 @@ type Op struct {
 	Vs  []string `json:"vs"`
 	Why string   `json:"why"`
 	// observations on the real code
-	Err    bool `json:"err"`    // the call returned an error
-	ArgsOK bool `json:"argsok"` // the arguments are unchanged after the call
+	Panic  string `json:"panic,omitempty"` // the call panicked
+	Err    bool   `json:"err"`             // the call returned an error
+	ArgsOK bool   `json:"argsok"`          // the arguments are unchanged after the call
 }
 
 // Config is a concrete writer configuration.
@@ -46,7 +47,7 @@ type Config struct {
 	Version  string `json:"version"` // "1.0" .. "2.0"
 	Human    bool   `json:"human"`
 	Seekable bool   `json:"seekable"`
-	Enc      string `json:"enc"` // none user owner both
+	Enc      string `json:"enc"`    // none user owner both
 	Filter   string `json:"filter"` // filter used for model streams: "" (exact buffering) or a name
 	Tiny     bool   `json:"tiny"`   // smallest possible values (files in which every offset stays below 256)
 }
@@ -78,17 +79,17 @@ type Read struct {
 
 // Run is the record of one program on the real code.
 type Run struct {
-	Cfg      Config `json:"cfg"`
-	ObjStm   bool   `json:"objstm"`
-	Seekable bool   `json:"seekable"`
-	Ops      []Op   `json:"ops"`
-	Closed   bool   `json:"closed"` // Close succeeded and the file was reopened
-	Reads    []Read `json:"reads"`
-	Size     int    `json:"size"`    // /Size as the Reader sees the file: highest readable number + 1 is not observable, so: probes run to Size-1
-	MetaOK   bool   `json:"metaok"`  // version, ID, Info, Catalog round trip
-	OpenErr  string `json:"openerr"` // error of NewReader, if any
-	Seed     int64  `json:"seed"`
-	Data     []byte `json:"-"`
+	Cfg      Config             `json:"cfg"`
+	ObjStm   bool               `json:"objstm"`
+	Seekable bool               `json:"seekable"`
+	Ops      []Op               `json:"ops"`
+	Closed   bool               `json:"closed"` // Close succeeded and the file was reopened
+	Reads    []Read             `json:"reads"`
+	Size     int                `json:"size"`    // /Size as the Reader sees the file: highest readable number + 1 is not observable, so: probes run to Size-1
+	MetaOK   bool               `json:"metaok"`  // version, ID, Info, Catalog round trip
+	OpenErr  string             `json:"openerr"` // error of NewReader, if any
+	Seed     int64              `json:"seed"`
+	Data     []byte             `json:"-"`
 	Written  map[[2]int]Written `json:"-"`
 }
 
@@ -139,6 +140,14 @@ func ParseLabel(label string) (Op, error) {
 		a, _ := strconv.Atoi(strings.TrimSpace(f[0]))
 		b, _ := strconv.Atoi(strings.TrimSpace(f[1]))
 		op.Op, op.Ns, op.Vs = "WriteCompressed", []int{a, b}, []string{unq(f[2]), unq(f[2])}
+	case "WC3":
+		f := strings.Split(args, ",")
+		a, _ := strconv.Atoi(strings.TrimSpace(f[0]))
+		b, _ := strconv.Atoi(strings.TrimSpace(f[1]))
+		c, _ := strconv.Atoi(strings.TrimSpace(f[2]))
+		op.Op, op.Ns, op.Vs = "WriteCompressed", []int{a, b, c}, []string{unq(f[3]), unq(f[3]), unq(f[3])}
+	case "WC0":
+		op.Op = "WriteCompressed"
 	case "WriteCompressed":
 		// <<1, 2>>,<<"a", "a">>
 		parts := strings.SplitN(args, ">>", 2)
@@ -371,133 +380,148 @@ func Execute(cfg Config, prog []Op, seed int64) (run Run, err error) {
 		if (op.Op == "OpenStream" || op.Op == "WriteCompressed" || op.Op == "Close") && stm != nil {
 			continue
 		}
-		switch op.Op {
-		case "Alloc":
-			w.Alloc()
-		case "AllocN":
-			for k := 0; k < op.K; k++ {
+		var fatal error
+		func() {
+			// a panic of the Writer is an outcome the specification never has
+			defer func() {
+				if p := recover(); p != nil {
+					cerr = fmt.Errorf("panic: %v", p)
+					op.Panic = fmt.Sprint(p)
+				}
+			}()
+			switch op.Op {
+			case "Alloc":
 				w.Alloc()
-			}
-		case "Put":
-			before := snapshot(pvals[op.V])
-			cerr = w.Put(pdf.NewReference(uint32(op.N), uint16(op.G)), pvals[op.V])
-			op.ArgsOK = snapshot(pvals[op.V]) == before
-			if cerr == nil {
-				wr := Written{ID: op.V, Value: vals[op.V]}
-				if stm != nil {
-					queued = append(queued, pending{[2]int{op.N, op.G}, wr})
-				} else {
-					run.Written[[2]int{op.N, op.G}] = wr
+			case "AllocN":
+				for k := 0; k < op.K; k++ {
+					w.Alloc()
 				}
-			}
-		case "PutStm":
-			before := snapshot(pstm[op.V].Dict)
-			cerr = w.Put(pdf.NewReference(uint32(op.N), uint16(op.G)), pstm[op.V])
-			op.ArgsOK = snapshot(pstm[op.V].Dict) == before
-			if again, rerr := io.ReadAll(pstm[op.V].NewReader()); rerr != nil || !bytes.Equal(again, pbody[op.V]) {
-				op.ArgsOK = false
-			}
-			if cerr == nil {
-				wr := Written{ID: op.V, Value: sdict[op.V], Stream: true, Body: pbody[op.V]}
-				if stm != nil {
-					queued = append(queued, pending{[2]int{op.N, op.G}, wr})
-				} else {
-					run.Written[[2]int{op.N, op.G}] = wr
+			case "Put":
+				before := snapshot(pvals[op.V])
+				cerr = w.Put(pdf.NewReference(uint32(op.N), uint16(op.G)), pvals[op.V])
+				op.ArgsOK = snapshot(pvals[op.V]) == before
+				if cerr == nil {
+					wr := Written{ID: op.V, Value: vals[op.V]}
+					if stm != nil {
+						queued = append(queued, pending{[2]int{op.N, op.G}, wr})
+					} else {
+						run.Written[[2]int{op.N, op.G}] = wr
+					}
 				}
-			}
-		case "OpenStream":
-			d := shared.ToPDF(sdict[op.V]).(pdf.Dict)
-			// a caller-supplied /Length counts the bytes as they appear in the
-			// file: AES adds a 16-byte IV and PKCS#7 padding
-			inFile := remaining(i)
-			if cfg.Enc != "none" && cfg.Version >= "1.6" {
-				inFile = 16 + (inFile/16+1)*16
-			}
-			switch op.Lg {
-			case "right":
-				d["Length"] = pdf.Integer(inFile)
-			case "wrong":
-				d["Length"] = pdf.Integer(inFile + 1)
-			}
-			before := snapshot(d)
-			var filters []pdf.Filter
-			if op.Lg == "none" {
-				filters = filterFor(cfg.Filter)
-			}
-			stm, cerr = w.OpenStream(pdf.NewReference(uint32(op.N), uint16(op.G)), d, filters...)
-			op.ArgsOK = snapshot(d) == before
-			if cerr != nil {
-				stm = nil
-			} else {
-				stmRef, stmID, stmBody = [2]int{op.N, op.G}, op.V, nil
-			}
-		case "OpenWhileOpen":
-			_, cerr = w.OpenStream(pdf.NewReference(4000, 0), pdf.Dict{}) // fails before anything is recorded
-			if cerr == nil {
-				return run, errors.New("OpenStream while a stream is open succeeded")
-			}
-		case "StreamWrite":
-			data := chunk(r, 512*op.K+op.Pad)
-			keep := append([]byte(nil), data...)
-			_, cerr = stm.Write(data)
-			op.ArgsOK = bytes.Equal(data, keep)
-			stmBody = append(stmBody, keep...)
-		case "CloseStream":
-			cerr = stm.Close()
-			if cerr == nil {
-				run.Written[stmRef] = Written{ID: stmID, Value: sdict[stmID], Stream: true, Body: stmBody}
-				for _, q := range queued {
-					run.Written[q.ref] = q.w
-				}
-			}
-			queued = nil
-			stm = nil
-		case "WriteCompressed":
-			refs := make([]pdf.Reference, len(op.Ns))
-			objs := make([]pdf.Object, len(op.Ns))
-			var before []string
-			for k, n := range op.Ns {
-				refs[k] = pdf.NewReference(uint32(n), 0)
-				objs[k] = pvals[op.Vs[k]]
-				before = append(before, snapshot(objs[k]))
-			}
-			cerr = w.WriteCompressed(refs, objs...)
-			for k := range objs {
-				if snapshot(objs[k]) != before[k] {
+			case "PutStm":
+				before := snapshot(pstm[op.V].Dict)
+				cerr = w.Put(pdf.NewReference(uint32(op.N), uint16(op.G)), pstm[op.V])
+				op.ArgsOK = snapshot(pstm[op.V].Dict) == before
+				if again, rerr := io.ReadAll(pstm[op.V].NewReader()); rerr != nil || !bytes.Equal(again, pbody[op.V]) {
 					op.ArgsOK = false
 				}
-			}
-			if cerr == nil {
+				if cerr == nil {
+					wr := Written{ID: op.V, Value: sdict[op.V], Stream: true, Body: pbody[op.V]}
+					if stm != nil {
+						queued = append(queued, pending{[2]int{op.N, op.G}, wr})
+					} else {
+						run.Written[[2]int{op.N, op.G}] = wr
+					}
+				}
+			case "OpenStream":
+				d := shared.ToPDF(sdict[op.V]).(pdf.Dict)
+				// a caller-supplied /Length counts the bytes as they appear in the
+				// file: AES adds a 16-byte IV and PKCS#7 padding
+				inFile := remaining(i)
+				if cfg.Enc != "none" && cfg.Version >= "1.6" {
+					inFile = 16 + (inFile/16+1)*16
+				}
+				switch op.Lg {
+				case "right":
+					d["Length"] = pdf.Integer(inFile)
+				case "wrong":
+					d["Length"] = pdf.Integer(inFile + 1)
+				}
+				before := snapshot(d)
+				var filters []pdf.Filter
+				if op.Lg == "none" {
+					filters = filterFor(cfg.Filter)
+				}
+				stm, cerr = w.OpenStream(pdf.NewReference(uint32(op.N), uint16(op.G)), d, filters...)
+				op.ArgsOK = snapshot(d) == before
+				if cerr != nil {
+					stm = nil
+				} else {
+					stmRef, stmID, stmBody = [2]int{op.N, op.G}, op.V, nil
+				}
+			case "OpenWhileOpen":
+				_, cerr = w.OpenStream(pdf.NewReference(4000, 0), pdf.Dict{}) // fails before anything is recorded
+				if cerr == nil {
+					fatal = errors.New("OpenStream while a stream is open succeeded")
+					return
+				}
+			case "StreamWrite":
+				data := chunk(r, 512*op.K+op.Pad)
+				keep := append([]byte(nil), data...)
+				_, cerr = stm.Write(data)
+				op.ArgsOK = bytes.Equal(data, keep)
+				stmBody = append(stmBody, keep...)
+			case "CloseStream":
+				cerr = stm.Close()
+				if cerr == nil {
+					run.Written[stmRef] = Written{ID: stmID, Value: sdict[stmID], Stream: true, Body: stmBody}
+					for _, q := range queued {
+						run.Written[q.ref] = q.w
+					}
+				}
+				queued = nil
+				stm = nil
+			case "WriteCompressed":
+				refs := make([]pdf.Reference, len(op.Ns))
+				objs := make([]pdf.Object, len(op.Ns))
+				var before []string
 				for k, n := range op.Ns {
-					run.Written[[2]int{n, 0}] = Written{ID: op.Vs[k], Value: vals[op.Vs[k]]}
+					refs[k] = pdf.NewReference(uint32(n), 0)
+					objs[k] = pvals[op.Vs[k]]
+					before = append(before, snapshot(objs[k]))
 				}
-			}
-		case "WriteCompressedBad":
-			ref := pdf.NewReference(uint32(100+i), 0)
-			switch op.Why {
-			case "streamMember":
-				cerr = w.WriteCompressed([]pdf.Reference{ref}, pdf.NewStream(pdf.Dict{}, nil))
-			case "refMember":
-				cerr = w.WriteCompressed([]pdf.Reference{ref}, pdf.NewReference(1, 0))
-			default:
-				cerr = w.WriteCompressed([]pdf.Reference{pdf.NewReference(uint32(100+i), 1)}, pdf.Integer(1))
-			}
-		case "CloseWhileOpen":
-			cerr = w.Close()
-		case "Close":
-			pref := w.Alloc()
-			if cerr = w.Put(pref, pagesDict); cerr == nil {
-				w.GetMeta().Catalog.Pages = pref
-				w.GetMeta().Info.Title = "verification program"
-				w.GetMeta().Info.Author = "harness"
-				if cfg.Tiny {
-					w.GetMeta().Info.Title = "t"
-					w.GetMeta().Info.Author = "h"
+				cerr = w.WriteCompressed(refs, objs...)
+				for k := range objs {
+					if snapshot(objs[k]) != before[k] {
+						op.ArgsOK = false
+					}
 				}
+				if cerr == nil {
+					for k, n := range op.Ns {
+						run.Written[[2]int{n, 0}] = Written{ID: op.Vs[k], Value: vals[op.Vs[k]]}
+					}
+				}
+			case "WriteCompressedBad":
+				ref := pdf.NewReference(uint32(100+i), 0)
+				switch op.Why {
+				case "streamMember":
+					cerr = w.WriteCompressed([]pdf.Reference{ref}, pdf.NewStream(pdf.Dict{}, nil))
+				case "refMember":
+					cerr = w.WriteCompressed([]pdf.Reference{ref}, pdf.NewReference(1, 0))
+				default:
+					cerr = w.WriteCompressed([]pdf.Reference{pdf.NewReference(uint32(100+i), 1)}, pdf.Integer(1))
+				}
+			case "CloseWhileOpen":
 				cerr = w.Close()
+			case "Close":
+				pref := w.Alloc()
+				if cerr = w.Put(pref, pagesDict); cerr == nil {
+					w.GetMeta().Catalog.Pages = pref
+					w.GetMeta().Info.Title = "verification program"
+					w.GetMeta().Info.Author = "harness"
+					if cfg.Tiny {
+						w.GetMeta().Info.Title = "t"
+						w.GetMeta().Info.Author = "h"
+					}
+					cerr = w.Close()
+				}
+			default:
+				fatal = fmt.Errorf("unknown op %q", op.Op)
+				return
 			}
-		default:
-			return run, fmt.Errorf("unknown op %q", op.Op)
+		}()
+		if fatal != nil {
+			return run, fatal
 		}
 		op.Err = cerr != nil
 		done = append(done, *op)
